@@ -531,6 +531,9 @@ class ContiguousDataReader(BaseDataReader):
             elif obj.data_type.size is not None:
                 # In last chunk with reduced chunk size
                 current_position += obj.data_type.size * number_values
+            elif number_values == 0:
+                # No values for this object in a truncated last chunk, so nothing to skip
+                pass
             else:
                 raise Exception("Cannot skip over channel with unsized type in a truncated segment")
 
